@@ -22,12 +22,12 @@ RULE = ('(a) totality: phredToFastqHeaderSafeQualities / fastqHeaderSafeQualitie
         'stored as BAM query names, read back and decoded by QueryNameFlagger; (c) length sweep: library names chosen so that the header '
         'length crosses 240..270. Non-trivial = decoded pair with a UMI or ligation quality string containing a phred >= 52 or a header '
         'within 15 characters of the limit; distinct = distinct (strategy, library, pair id).'
-        ' Plus 0-based cell indices, library names ending in 1 / 2 / 12, one library whose later reads exceed the limit, and no header above 254 characters may leave the demultiplexer.')
+        ' Plus 0-based cell indices, library names ending in 1 / 2 / 12, one library whose later reads exceed the limit, and no header above 254 characters may leave the demultiplexer; every fifth alignment already carries optional fields under names its read name encodes too.')
 ASSUMPTIONS = ['pysam BAM writing/reading is the storage; its own refusal of names > 254 characters counts as a loud refusal',
                'expected field values come from the raw reads through the hand-written layout table and the independent 52-letter code']
 MIN_NONTRIVIAL = {'quick': 300, 'thorough': 30000}
 REQUIRED_MONITORS = ['totality:single_chars', 'totality:pairs', 'roundtrip:reads_decoded', 'roundtrip:fields_compared',
-                     'length:refused_loudly', 'length:stored_exactly', 'history:fitting_then_overlong_in_one_library', 'roundtrip:cell_index_zero', 'roundtrip:mates_digested_separately']
+                     'length:refused_loudly', 'length:stored_exactly', 'history:fitting_then_overlong_in_one_library', 'roundtrip:cell_index_zero', 'roundtrip:mates_digested_separately', 'roundtrip:alignment_with_preexisting_fields']
 SHARD_TIMEOUT = {'quick': 600, 'thorough': 3600}
 PHRED_TAGS = {'QX', 'QT', 'RQ', 'BZ', 'QM', 'lq', 'aQ', 'AQ', 'E2', 'EQ', 'eq', 'is', 'H1', 'H3'}
 
@@ -218,6 +218,14 @@ def run_library(acc, d, dmx, strategy, name, wl, iwl, r, lib, n, single, case_id
                 a.query_sequence = s if s else 'A'
                 a.query_qualities = pysam.qualitystring_to_array(q) if s else pysam.qualitystring_to_array('I')
                 a.cigarstring = f'{len(a.query_sequence)}M'
+                a.set_tag('NM', 0)
+                if idx % 5 == 2:
+                    # the alignment already carries optional fields under names the read name encodes as well (an upstream UMI-aware tool,
+                    # an aligner copying FASTQ comments, the remains of an interrupted earlier run): the decoded name is what must come out
+                    enc = [k for k in fq.parse_out_header(h) if k in ('RX', 'BC', 'bc', 'RQ', 'LY', 'Fc', 'La', 'CX', 'bi', 'MX', 'aA', 'aa')]
+                    for k in enc[idx % 2::2] + ['MI']:
+                        a.set_tag(k, 'zz' if k != 'MI' else '1')
+                    acc.count('roundtrip:alignment_with_preexisting_fields')
                 segs.append(a)
             if ok:
                 for a in segs:
